@@ -42,10 +42,10 @@ Proof. split; reflexivity. Qed.
 
 (* abstract the table entries and the bound (so that lra sees atoms), keeping [range] *)
 Ltac abstract_consts range :=
-  pose proof range as R; unfold box_gate, point_gate in *;
+  pose proof range as R; unfold box_gate, point_gate in *; change (T Qops) with Q in *;
   repeat match goal with
-  | H : context [nth ?i (CHI2INV95_T Qops) 0] |- _ => generalize dependent (nth i (CHI2INV95_T Qops) 0); intros
-  | |- context [nth ?i (CHI2INV95_T Qops) 0] => generalize dependent (nth i (CHI2INV95_T Qops) 0); intros
+  | |- context [@nth Q ?i (CHI2INV95_T Qops) ?z] => progress (generalize dependent (@nth Q i (CHI2INV95_T Qops) z); intros)
+  | H : context [@nth Q ?i (CHI2INV95_T Qops) ?z] |- _ => progress (generalize dependent (@nth Q i (CHI2INV95_T Qops) z); intros)
   end;
   generalize dependent CHI2_UPPER_BOUND; intros.
 
